@@ -14,6 +14,9 @@ git apply patch.diff || exit 2
 echo "== demo exit with patch: $WITH (expect != 0), without: $WITHOUT (expect 0)"
 cargo test --workspace --no-fail-fast --offline 2>&1 | grep -E "^test .*(FAILED|failed)|^test result" | grep -v "0 passed; 0 failed" > /tmp/seed_${ID}_suite.log
 echo "== suite with patch:"; cat /tmp/seed_${ID}_suite.log
+# bring the scratch worktree up to /repo's HEAD (repairs committed after the worktree was created), keeping the seeded change
+BASE=$(git -C $W rev-parse HEAD); TIP=$(git -C /repo rev-parse HEAD)
+if [ "$BASE" != "$TIP" ]; then git -C /repo diff $BASE $TIP | git -C $W apply && echo "== worktree brought up to $TIP" || echo "== WARNING: could not apply /repo's newer commits to the worktree"; fi
 cd /verif
 for P in $PROPS; do
   VERIF_REPO=$W ./vcheck check $P > /tmp/seed_${ID}_check_$P.log 2>&1; echo "== vcheck $P exit $? : $(grep -E 'VIOLATION|^OK' /tmp/seed_${ID}_check_$P.log | head -2)"
